@@ -3,13 +3,13 @@
 without and fails with the change, the existing tests of the touched packages pass with the change."""
 import sys, os, re, subprocess, glob, shutil, json
 pid = sys.argv[1]
-sd = f"/tmp/seedout/{pid}"
+sd = (sys.argv[2] if len(sys.argv) > 2 else "/tmp/seedout") + f"/{pid}"
 G = "/root/go/pkg/mod/golang.org/toolchain@v0.0.1-go1.26.4.linux-amd64/bin/go"
 env = dict(os.environ, GOTOOLCHAIN="local", GOFLAGS="-mod=mod", GOPROXY="off", GOSUMDB="off", CGO_ENABLED="1")
 def sh(cmd, cwd=None, timeout=1500):
     r = subprocess.run(cmd, shell=True, cwd=cwd, env=env, capture_output=True, text=True, timeout=timeout)
     return r.returncode, r.stdout + r.stderr
-wt = f"/tmp/sv-{pid}"
+wt = f"/tmp/sv-{pid}-" + str(os.getpid())
 sh(f"git -C /repo worktree remove --force {wt}")
 rc, out = sh(f"git -C /repo worktree add --detach {wt} HEAD")
 res = {"id": pid}
